@@ -202,21 +202,21 @@ def infoEqTok (l : TokInfo F) (r : Tok F) : Bool :=
     | l, .field f => tokFieldCompare l f
     | _, _ => false
 
-/-- `types::find_location`: start index of the first completed run; a mismatch restarts AFTER
-    the mismatching token -/
+/-- does `name` match a prefix of `toks`? -/
+def matchesAt (toks : List (TokInfo F)) (name : List (Tok F)) : Bool :=
+  match name, toks with
+  | [], _ => true
+  | _ :: _, [] => false
+  | r :: name', t :: toks' => infoEqTok t r && matchesAt toks' name'
+
+/-- `types::find_location` (with the restart repaired in /repo): index of the first position at
+    which the whole name matches -/
 def findLocation (toks : List (TokInfo F)) (name : List (Tok F)) : Option Nat :=
-  let total := name.length
-  let rec go (rest : List (TokInfo F)) (target ruleIdx start : Nat) : Option Nat :=
-    match rest with
-    | [] => if total = ruleIdx then some start else none
-    | t :: rest' =>
-      match name[ruleIdx]? with
-      | none => if total = ruleIdx then some start else none
-      | some r =>
-        if infoEqTok t r then
-          if total = ruleIdx + 1 then some start else go rest' (target + 1) (ruleIdx + 1) start
-        else go rest' (target + 1) 0 (target + 1)
-  if total = 0 then (if toks.isEmpty then some 0 else some 0) else go toks 0 0 0
+  match toks with
+  | [] => if name.isEmpty then some 0 else none
+  | t :: rest =>
+    if matchesAt (t :: rest) name then some 0
+    else (findLocation rest name).map (· + 1)
 
 /-- index after the first `=` at position ≥ 1 among the infos, else 0 (`update_token_variables`) -/
 def varStartIndex (infos : List (TokInfo F)) : Nat :=
@@ -271,7 +271,7 @@ def tokToString : Tok F → String
   | _ => "<value>"
 
 /-- the textual key `VariableInfo::to_string` -/
-def varKey (toks : List (Tok F)) : String := String.join (toks.map fun t => (tokToString t).toLower)
+def varKey (toks : List (Tok F)) : String := " ".intercalate (toks.map fun t => (tokToString t).toLower)
 
 /-- `AssignmentParser::parse` + `AddSubtractParser::parse` (`SyntaxParser::parse`), returning the
     AST and the session variables (a new variable is registered at parse time). -/
@@ -285,11 +285,11 @@ def parseLine (vs : Vars F) (toks : List (Tok F)) : Except Err (Ast F × Vars F)
       let k := match rest.findIdx? (fun t => t.isOpOf .assign) with
         | some i => i + 1      -- index of that `=` in toks
         | none => toks.length  -- no `=` after the first token: the scan runs off the end
-      let nameToks := first :: (rest.take (k - 1)).filter (fun t => !t.isOp)
-      let lookupKey := String.join (nameToks.map fun t => (tokToString t).toLower)
       let exprToks := toks.drop (k + 1)
       -- end = index - 1 where index is one past the `=` (or one past the end)
-      let nameRange := toks.take (if k < toks.length then k else toks.length)
+      let nameRange := toks.take (if k < toks.length then k else toks.length - 1)
+      let lookupKey := varKey nameRange
+      let _ := first
       match parseExpr exprToks with
       | .error e => .error e
       | .ok (.none, rest') =>
